@@ -233,6 +233,12 @@ def run_case(case, acc):
         return
     fonts = [TTFont(io.BytesIO(d)) for d in inputs]
     hbs = [HBFont(d) for d in inputs]
+    # the merger documents that it only merges format 4 / format 12 Unicode cmap subtables
+    ok_props = {(4, 3, 1), (4, 0, 3), (4, 0, 4), (4, 0, 6), (12, 3, 10), (12, 0, 4), (12, 0, 6)}
+    for f in fonts:
+        if not any((st.format, st.platformID, st.platEncID) in ok_props for st in f["cmap"].tables):
+            acc.exclude("input-without-format-4-or-12-unicode-cmap")
+            return
     charsets = [set(h.unicodes()) for h in hbs]
     all_have_gsub = all("GSUB" in f for f in fonts)
     # documented restriction: duplicate glyph disambiguation needs GSUB in the fonts
@@ -292,7 +298,12 @@ def run_case(case, acc):
     if flags["disjoint"] and not dup:
         rnd = random.Random(case["seed"] ^ 0x5EED)
         for i, h in enumerate(hbs):
-            chars = sorted(charsets[i])
+            # the shaper's Unicode normalisation may compose base+mark (or Hangul jamo) sequences into a precomposed
+            # character that only ANOTHER input supports; that is the shaper using the larger merged repertoire, not a
+            # change to this input's behaviour: probe texts avoid combining marks and conjoining jamo
+            import unicodedata
+
+            chars = sorted(c for c in charsets[i] if not unicodedata.category(chr(c)).startswith("M") and not (0x1100 <= c <= 0x11FF))
             script = "latn" if any(0x41 <= c <= 0x24F for c in chars) else None
             for t in shapecmp.random_texts(chars, rnd, case.get("ntexts", 10), maxlen=6):
                 ra = h.shape_text(t, script=None, direction="ltr")
